@@ -13,9 +13,9 @@ diagnostics of a text are) is an uninterpreted parameter, every theorem holds fo
   any interleaving of the background tasks' steps), if no task is in flight then for every open
   document the client's last notification carries the diagnostics of the current text.
 * `never_regresses` — the versions the client receives for one URI are strictly increasing.
-* `can_quiesce` — from every reachable state the tasks can run to completion without further
-  notifications (so the hypothesis of `C13_converges` is reachable from everywhere: the newest
-  task is never stuck).
+* `can_quiesce`, `eventually_shows_latest` — from every reachable state the tasks can run to
+  completion without further notifications (no deadlock on `publishMu`; the hypothesis of
+  `C13_converges` is reachable from everywhere: the newest task is never stuck).
 -/
 
 namespace HL.Props.C13
@@ -97,6 +97,26 @@ theorem one_publisher_at_a_time (diag : Text → Diags) (es : List (Ev Text)) (i
   have h1 := (inv_run diag es).owner i ki hi hhi
   have h2 := (inv_run diag es).owner j kj hj hhj
   rw [h1] at h2; exact Option.some.inj h2
+
+/-- No deadlock, no starvation of the newest task: from every reachable state the background
+    tasks alone (no further notification) can run to completion, and this does not touch the
+    documents.  So the hypothesis of `C13_converges` can be reached from everywhere. -/
+theorem can_quiesce (diag : Text → Diags) (es : List (Ev Text)) :
+    ∃ es' : List (Ev Text), (∀ e ∈ es', Ev.isTask e = true) ∧
+      Quiescent (run diag true (es ++ es')) ∧ (run diag true (es ++ es')).docs = (run diag true es).docs := by
+  obtain ⟨es', h1, h2, h3⟩ := drain (diag := diag) (work (run diag true es)) (run diag true es)
+    (inv_run diag es) (Nat.le_refl _)
+  exact ⟨es', h1, by rw [run_append]; exact h2, by rw [run_append]; exact h3⟩
+
+/-- "Once notifications stop …": after any trace there is a continuation made of background steps
+    only after which every open document shows the diagnostics of its (unchanged) latest content.
+    (`C13_converges` says the same of EVERY such continuation that ends with no task in flight.) -/
+theorem eventually_shows_latest (diag : Text → Diags) (es : List (Ev Text)) :
+    ∃ es' : List (Ev Text), (∀ e ∈ es', Ev.isTask e = true) ∧
+      ∀ u t, (run diag true es).docs u = some t → shown (run diag true (es ++ es')) u = some (diag t) := by
+  obtain ⟨es', h1, h2, h3⟩ := can_quiesce diag es
+  refine ⟨es', h1, fun u t hd => ?_⟩
+  exact C13_converges diag (es ++ es') h2 u t (by rw [h3]; exact hd)
 
 /-! ## Non-vacuity -/
 
